@@ -246,6 +246,8 @@ def run_sender(script):
             self.selector = Sel()
             self.logger = Log()
 
+    trace = []     # the operations as the real code performed them: [0, payload] = send_message, [1, n] = one sock.send
+
     class Sock:
         def __init__(self):
             self.pieces = []
@@ -254,6 +256,7 @@ def run_sender(script):
             n = rng.choice([1, 1, 2, 3, 5, 8, 13, 60, len(data), len(data)])
             n = max(1, min(n, len(data)))
             self.pieces.append(bytes(data[:n]))
+            trace.append([1, n])
             return n
 
     lp = LP()
@@ -265,6 +268,8 @@ def run_sender(script):
         m = M.Message.stream_deserialize(io.BytesIO(bytes.fromhex(mhex)))
         prev = None if phex is None else M.MessageHeader.stream_deserialize(io.BytesIO(bytes.fromhex(phex)))
         peer.send_message(m, prev_header=prev)
+        queued = peer.send_backlog[-1] if peer.send_backlog else peer.send_buffer
+        trace.append([0, bytes(queued[8:])])
         msgs.append(m)
         prevs.append(prev)
         while lp.selector.writing and rng.random() < 0.6:
@@ -273,6 +278,8 @@ def run_sender(script):
     while lp.selector.writing and guard < 100000:
         peer.handle_can_send(sock)
         guard += 1
+    peer.skv_trace = trace
+    peer.skv_writing = lp.selector.writing
     return sock.pieces, msgs, prevs, peer, guard
 
 
@@ -303,6 +310,8 @@ def judge_sender(script):
     got, e3, st = impl_feed(pieces)
     if got != frames or e3 != 0 or st != [b'', False, None]:
         return head + '; the real receiver fed with the written pieces delivers something else', pieces, frames
+    judge_sender.last = (peer.skv_trace, [wire, bytes(peer.send_buffer), [bytes(x) for x in peer.send_backlog],
+                                          1 if peer.skv_writing else 0])
     return None, pieces, frames
 
 
@@ -313,6 +322,7 @@ def sender_level(ck, tier, r):
     rng = ck.rng
     reqs = []
     wires = []
+    machine = []
     for _ in range(12 if tier == 'quick' else 300):
         nmsgs = rng.choice([1, 2, 3, 5])
         script = {'seed': rng.getrandbits(30), 'msgs': []}
@@ -329,6 +339,8 @@ def sender_level(ck, tier, r):
                          {'sender_script': script})
         reqs.append(('send_stream', [], list(frames)))
         wires.append((wire, frames))
+        if not bad:
+            machine.append(judge_sender.last)
     if r.ok:
         outs = model.run_batch(reqs)
         for (wire, frames), o in zip(wires, outs):
@@ -337,6 +349,15 @@ def sender_level(ck, tier, r):
                             {'sender': True, 'frames': [f.hex() for f in frames], 'impl': wire.hex()[:400],
                              'model': repr(o)[:400]})
         ck.extra['sender_traces_validated_against_impl'] = len(wires)
+        # the state machine: the operations as the real code performed them, replayed on the model s_run
+        outs = model.run_batch([('sender_run', [], tr) for tr, _ in machine])
+        for (tr, fin), o in zip(machine, outs):
+            if [o[0], o[1], list(o[2]), o[3]] != fin:
+                ck.disagree('ConnectedRemotePeer send_buffer/send_backlog/writability vs model Framing.s_run',
+                            {'sender': True, 'ops': [[k, v.hex() if k == 0 else v] for k, v in tr],
+                             'impl': repr(fin)[:400], 'model': repr(o)[:400]})
+        ck.extra['sender_state_machine_traces'] = len(machine)
+        ck.extra['sender_state_machine_ops'] = sum(len(tr) for tr, _ in machine)
 
 
 def run(tier, seed):
